@@ -17,6 +17,10 @@ var (
 	// peer address that is already bound to a different channel number.
 	ErrSamePeerDifferentChannel = errors.New("you cannot use the same peer with different channel number")
 
+	// ErrAllocationClosed is returned when something is to be attached to an
+	// allocation that has ended.
+	ErrAllocationClosed = errors.New("the allocation has ended")
+
 	errAllocatePacketConnMustBeSet  = errors.New("AllocatePacketConn must be set")
 	errAllocateListenerMustBeSet    = errors.New("AllocateListener must be set")
 	errAllocateConnMustBeSet        = errors.New("AllocateConn must be set")
